@@ -21,7 +21,7 @@ warnings.filterwarnings("ignore")
 
 X, U = Space({"x": 1}), Space({"u": 1})
 MENU = ["pinn_static", "boundary", "param_penalty", "pinn_param", "adaptive_w", "data2", "pinn_random", "pideeponet", "periodic_param", "ritz",
-        "pideeponet_r", "pideeponet_r2"]
+        "pideeponet_r", "pideeponet_r2", "qres"]
 OPTS = {
     "sgd": dict(cls=torch.optim.SGD, lr=0.05, args={}),
     "sgd_momentum": dict(cls=torch.optim.SGD, lr=0.05, args={"momentum": 0.9}),
@@ -29,6 +29,10 @@ OPTS = {
     "adam_steplr": dict(cls=torch.optim.Adam, lr=0.01, args={}, sched=torch.optim.lr_scheduler.StepLR, sargs={"step_size": 2, "gamma": 0.5}, freq=1),
     "sgd_steplr_f2": dict(cls=torch.optim.SGD, lr=0.05, args={}, sched=torch.optim.lr_scheduler.StepLR, sargs={"step_size": 1, "gamma": 0.5}, freq=2),
 }
+
+
+# ONE configuration tensor reused by every World of a process (a model must copy it, not adopt it as its parameter)
+INITIAL_SLOPE = torch.tensor(0.9)
 
 
 class DriftSampler(tp.samplers.PointSampler):
@@ -46,11 +50,12 @@ class DriftSampler(tp.samplers.PointSampler):
 
 class World:
     """fresh, identically initialised user objects; conditions are built from them on demand"""
-    def __init__(self):
-        torch.manual_seed(123)
+    def __init__(self, seed=123):
+        torch.manual_seed(seed)
         # ONE adaptive activation instance serves both hidden layers: its parameter `a` is tied (two state-dict keys)
-        self.model = tp.models.FCN(X, U, hidden=(4, 3), activations=tp.models.AdaptiveActivationFunction(nn.Tanh(), inital_a=0.9))
+        self.model = tp.models.FCN(X, U, hidden=(4, 3), activations=tp.models.AdaptiveActivationFunction(nn.Tanh(), inital_a=INITIAL_SLOPE))
         self.model2 = tp.models.FCN(X, U, hidden=(3,))
+        self.model3 = tp.models.QRES(X, U, hidden=(3, 2))
         self.D = tp.models.Parameter(init=0.7, space=Space({"D": 1}))
         self.J = tp.models.Parameter(init=0.3, space=Space({"J": 1}))      # only used by the periodic condition
         self.dom = tp.domains.Interval(X, 0.0, 1.0)
@@ -117,6 +122,8 @@ class World:
             net, fset = self.deeponet_r()
             fn = (lambda u, x: u - x) if kind == "pideeponet_r" else (lambda u, x: u + 0.5 * x * x)
             c = Cn.PIDeepONetCondition(net, fset, S.GridSampler(self.dom, 3 if kind == "pideeponet_r" else 2).make_static(), fn, weight=weight, name=kind)
+        elif kind == "qres":
+            c = Cn.PINNCondition(self.model3, S.GridSampler(self.dom, 4).make_static(), lambda u, x: u - torch.cos(2 * x), weight=weight, name=kind)
         elif kind == "periodic_param":
             c = Cn.PeriodicCondition(self.model, self.dom, lambda u_left, u_right, J: u_left - u_right - J, parameter=self.J, weight=weight, name=kind)
         elif kind == "ritz":
@@ -253,7 +260,7 @@ def make_trainer(N, callbacks=(), val=False, val_interval=1, **kw):
     return pl.Trainer(**args)
 
 
-def solver_run(kinds, weights, optname, N, val_kinds=(), val_interval=1, extra_callbacks=(), ckpt_path=None, world=None):
+def solver_run(kinds, weights, optname, N, val_kinds=(), val_interval=1, extra_callbacks=(), ckpt_path=None, world=None, snap_model=None):
     """training through the Solver; returns per-step snapshots, recorded iteration indices, the world"""
     w = world or World()
     iters = []
@@ -269,7 +276,7 @@ def solver_run(kinds, weights, optname, N, val_kinds=(), val_interval=1, extra_c
         kw.update(scheduler_class=o["sched"], scheduler_args=dict(o["sargs"]), scheduler_frequency=o["freq"])
     setting = tp.solver.OptimizerSetting(o["cls"], o["lr"], **kw)
     solver = tp.solver.Solver(conds, val_conditions=vconds, optimizer_setting=setting)
-    rec = StepRecorder(named, model=w.model)
+    rec = StepRecorder(named, model=snap_model if snap_model is not None else w.model)
     w.sd_snaps = rec.sd_snaps
     tr = make_trainer(N, callbacks=[rec] + list(extra_callbacks), val=bool(val_kinds), val_interval=val_interval)
     with Seam(budget=100000):
